@@ -187,6 +187,8 @@ def run(prop, tier, seed, replay=None):
         common.machinery_failure("TLC did not report on every trace")
 
     summarize(prop, rep, traces, concrete, results, devs)
+    if prop == "C06":
+        uid_cache_conformance(rep, [t for t in traces if t["cfg"].get("frontend") == "store-api"])
     nev = sum(len(t["events"]) for t in traces)
     rep.coverage.update(mc)
     rep.coverage.update({
@@ -208,6 +210,27 @@ def run(prop, tier, seed, replay=None):
         "SHA-1 / MD5 collision resistance",
     ]
     return rep.finish()
+
+
+def uid_cache_conformance(rep, traces):
+    """C06, level B: model check UidCache.tla (fixed algorithm) and validate the real
+    _uid_to_fname / _fname_to_uid maps of the store-API sessions against it."""
+    cfg = ("SPECIFICATION Spec\nCONSTANT Fixed = TRUE\nINVARIANT UidUnique\nINVARIANT NoSpuriousRefusal\n"
+           "CONSTRAINT Bound\nCHECK_DEADLOCK FALSE\n")
+    res = tlc.run_tlc("UidCacheMC", cfg_text=cfg, workers=16, timeout=1200)
+    if "Model checking completed. No error has been found." not in res["out"]:
+        common.machinery_failure("TLC on UidCacheMC failed:\n" + res["out"][-3000:])
+    rep.coverage["uidcache_model"] = {"states": res["states"], "distinct": res["distinct"], "depth": 7}
+    if not traces:
+        return
+    out, stat = tlc.validate_traces("UidCacheTrace", "UidCacheTrace.cfg", merge_batch(traces))
+    drift = 0
+    for r in out:
+        for d in r["drift"]:
+            drift += 1
+            rep.note("model-drift: UID maps of trace %s step %s differ from UidCache.tla: %s"
+                     % (r["id"], d["i"], json.dumps(d)[:300]))
+    rep.coverage["uidcache_conformance"] = {"traces": len(out), "drift_steps": drift}
 
 
 def summarize(prop, rep, traces, concrete, results, devs):
